@@ -140,6 +140,9 @@ impl AsyncFileSystem for AsyncOverlayFS {
 
     async fn create_file(&self, path: &str) -> VfsResult<Box<dyn Write + Send + Unpin>> {
         self.ensure_has_parent(path).await?;
+        if self.exists(path).await? && self.metadata(path).await?.file_type != VfsFileType::File {
+            return Err(VfsErrorKind::Other("Not a file".into()).into());
+        }
         let result = self.write_path(path)?.create_file().await?;
         let whiteout_path = self.whiteout_path(path)?;
         if whiteout_path.exists().await? {
